@@ -462,31 +462,37 @@ impl IoLoop {
             HEARTBEAT => self.inner.process_heartbeat_timers()?,
             SET_BLOCKED_TX => match state {
                 ConnectionState::Steady(ch0_slot) => self.handle_set_blocked_tx(ch0_slot)?,
+                // The server's close (or our own exception) was handled earlier in this
+                // same batch of events and dropped the channel 0 slot; this wake-up was
+                // already pending. Ignore it - dropping the slot disconnected the
+                // requester, which reports the error to the caller.
                 ConnectionState::ServerClosing(_)
                 | ConnectionState::ClientException
-                | ConnectionState::ClientClosed => {
-                    unreachable!("ch0 slot cannot be readable after it is dropped")
-                }
+                | ConnectionState::ClientClosed => (),
             },
             ALLOC_CHANNEL => match &state {
                 ConnectionState::Steady(ch0_slot) => {
                     self.inner.allocate_channel(ch0_slot, &self.poll)?
                 }
+                // The server's close (or our own exception) was handled earlier in this
+                // same batch of events and dropped the channel 0 slot; this wake-up was
+                // already pending. Ignore it - dropping the slot disconnected the
+                // requester, which reports the error to the caller.
                 ConnectionState::ServerClosing(_)
                 | ConnectionState::ClientException
-                | ConnectionState::ClientClosed => {
-                    unreachable!("ch0 slot cannot be readable after it is dropped")
-                }
+                | ConnectionState::ClientClosed => (),
             },
             Token(0) => match &state {
                 ConnectionState::Steady(ch0_slot) => {
                     self.inner.handle_channel0_readable(ch0_slot)?
                 }
+                // The server's close (or our own exception) was handled earlier in this
+                // same batch of events and dropped the channel 0 slot; this wake-up was
+                // already pending. Ignore it - dropping the slot disconnected the
+                // requester, which reports the error to the caller.
                 ConnectionState::ServerClosing(_)
                 | ConnectionState::ClientException
-                | ConnectionState::ClientClosed => {
-                    unreachable!("ch0 slot cannot be readable after it is dropped")
-                }
+                | ConnectionState::ClientClosed => (),
             },
             Token(n) if n <= u16::max_value() as usize => {
                 self.inner.handle_channel_readable(n as u16)?
